@@ -268,8 +268,7 @@ MembersMeet(mem, exp) ==
 Meets(out, exp) == LET p == Parse(out) IN p.ok /\ MembersMeet(p.mem, exp)
 
 \* why a text fails (used to classify findings)
-Why(out, exp) ==
-  LET p == Parse(out) IN
+WhyP(p, out, exp) ==          \* p = Parse(out)
   IF ~p.ok THEN (IF \E i \in 1..Len(out) : out[i] < 32 THEN "invalid:control-char" ELSE "invalid:syntax")
   ELSE IF ~DistinctKeys(p.mem) THEN "duplicate-key"
   ELSE IF \E i \in 1..Len(p.mem) : \A k \in 1..Len(exp) : exp[k].key # p.mem[i].key THEN "extra-member"
@@ -278,4 +277,5 @@ Why(out, exp) ==
        IF bads = {} THEN "ok"
        ELSE LET m == p.mem[MinOf(bads)] IN
             "unfaithful:" \o (CASE m.kind = "s" -> "string" [] m.kind = "n" -> "number" [] m.kind \in {"t", "f"} -> "boolean" [] OTHER -> "null")
+Why(out, exp) == WhyP(Parse(out), out, exp)
 =============================================================================
